@@ -271,24 +271,14 @@ Lemma vfield_data_of cfg f : ~ In EQ (fst f) -> vfield cfg (data_of f) = (fst f,
 Proof. intro H. unfold vfield. rewrite (vkv_data_of f H). destruct f. reflexivity. Qed.
 
 Lemma vm_of_fields cfg : forall fs m0, keys_wf fs ->
-  fold_left (fun m d => let '(k, v) := vfield cfg d in vm_insert k v m) (map data_of fs) m0
-  = fold_left (fun m f => vm_insert (fst f) (vval cfg f) m) fs m0.
+  fold_left (fun m d => let '(k, v) := vfield cfg d in vm_put (cfg_verbose_multi cfg) k v m) (map data_of fs) m0
+  = fold_left (fun m f => vm_put (cfg_verbose_multi cfg) (fst f) (vval cfg f) m) fs m0.
 Proof.
   induction fs as [|f r IH]; intros m0 H; [reflexivity|].
   inversion H as [|? ? Hf Hr]; subst. cbn [map fold_left]. rewrite (vfield_data_of cfg f Hf). apply IH. exact Hr.
 Qed.
 
-(* the binding of key q after inserting the fields in order: the last field of that key wins *)
-Lemma fold_insert_assoc cfg q : forall fs m0,
-  (forall f, In f fs -> fst f <> q) ->
-  assoc q (fold_left (fun m f => vm_insert (fst f) (vval cfg f) m) fs m0) = assoc q m0.
-Proof.
-  induction fs as [|f r IH]; intros m0 H; [reflexivity|]. cbn [fold_left].
-  rewrite IH by (intros g Hg; apply H; right; exact Hg).
-  rewrite vm_insert_assoc. rewrite beqb_neq_false; [reflexivity|].
-  apply not_eq_sym. apply H. left. reflexivity.
-Qed.
-
+(* HashMap: the binding of key q after inserting the fields in order: the last field of that key wins *)
 Lemma fold_insert_some cfg q : forall fs m0,
   (exists f, In f fs /\ fst f = q) ->
   exists f, In f fs /\ fst f = q /\
@@ -304,7 +294,41 @@ Proof.
     + subst q. rewrite beqb_refl in E. discriminate.
 Qed.
 
-(* the map binds MESSAGE to a MESSAGE value of the entry (untrimmed) *)
+(* Vec: every field is kept *)
+Lemma fold_push cfg : forall fs m0,
+  fold_left (fun m f => m ++ [(fst f, vval cfg f)]) fs m0 = m0 ++ map (fun f => (fst f, vval cfg f)) fs.
+Proof.
+  induction fs as [|f r IH]; intro m0; cbn [fold_left map]; [rewrite app_nil_r; reflexivity|].
+  rewrite IH, <- app_assoc. reflexivity.
+Qed.
+
+(* either way: a field of key q leaves a binding (q, its stored value) *)
+Lemma fold_put_some cfg q : forall fs m0,
+  (exists f, In f fs /\ fst f = q) ->
+  exists f, In f fs /\ fst f = q /\
+    In (q, vval cfg f) (fold_left (fun m f => vm_put (cfg_verbose_multi cfg) (fst f) (vval cfg f) m) fs m0).
+Proof.
+  intros fs m0 Hex. unfold vm_put. destruct (cfg_verbose_multi cfg).
+  - destruct Hex as [f [Hf Hq]]. exists f. split; [exact Hf|]. split; [exact Hq|].
+    rewrite fold_push. apply in_or_app. right. apply in_map_iff. exists f. split; [rewrite Hq; reflexivity|exact Hf].
+  - destruct (fold_insert_some cfg q fs m0 Hex) as [f [Hf [Hq Ha]]]. exists f. split; [exact Hf|]. split; [exact Hq|].
+    apply assoc_In. exact Ha.
+Qed.
+
+Lemma vm_insert_In_other q x k v : forall m, q <> k -> In (q, x) m -> In (q, x) (vm_insert k v m).
+Proof.
+  induction m as [|[k' v'] r IH]; intros Hn H; [destruct H|]. cbn [vm_insert].
+  destruct (beqb k k') eqn:E.
+  - apply beqb_eq in E. subst k'. destruct H as [H|H]; [injection H as H _; subst; contradiction|right; exact H].
+  - destruct H as [H|H]; [left; exact H|right; apply IH; assumption].
+Qed.
+
+Lemma vm_put_In_other multi q x k v m : q <> k -> In (q, x) m -> In (q, x) (vm_put multi k v m).
+Proof.
+  intros Hn H. unfold vm_put. destruct multi; [apply in_or_app; left; exact H|apply vm_insert_In_other; assumption].
+Qed.
+
+(* the collection binds MESSAGE to a MESSAGE value of the entry (untrimmed) *)
 Lemma verbose_map_msg cfg ev e :
   cfg_ok cfg = true -> keys_wf (e_fields e) ->
   (exists v, In (cfg_k_msg cfg, v) (firstn (cfg_emerg_verbose cfg) (e_fields e))) ->
@@ -314,36 +338,35 @@ Proof.
   intros Hok Hwf [v Hv]. pose proof (cfg_ok_facts cfg Hok) as F.
   set (fs := firstn (cfg_emerg_verbose cfg) (e_fields e)) in *.
   assert (Hex : exists f, In f fs /\ fst f = cfg_k_msg cfg) by (exists (cfg_k_msg cfg, v); split; [exact Hv|reflexivity]).
-  destruct (fold_insert_some cfg (cfg_k_msg cfg) fs [] Hex) as [[k m] [Hin [Hk Ha]]].
+  destruct (fold_put_some cfg (cfg_k_msg cfg) fs [] Hex) as [[k m] [Hin [Hk Ha]]].
   cbn [fst] in Hk. subst k.
   assert (Hval : vval cfg (cfg_k_msg cfg, m) = m).
   { unfold vval. cbn [fst snd]. rewrite (beqb_neq_false _ _ (cf_selinux cfg F)). reflexivity. }
   rewrite Hval in Ha. exists m. split; [exact Hin|].
-  apply assoc_In. unfold verbose_map, vm_of. rewrite raw_data_firstn. fold fs.
+  unfold verbose_map, vm_of. rewrite raw_data_firstn. fold fs.
   rewrite (vm_of_fields cfg fs [] (keys_wf_firstn _ _ Hwf)).
   match goal with |- context [fold_left ?g fs []] => set (m0 := fold_left g fs []) in * end.
   destruct (vm_mem (cfg_k_mono cfg) m0); [exact Ha|].
   destruct (mono_usec cfg ev e); [|exact Ha].
-  rewrite vm_insert_assoc, (beqb_neq_false _ _ (cf_mono cfg F)). exact Ha.
+  apply vm_put_In_other; [exact (cf_mono cfg F)|exact Ha].
 Qed.
 
 (* ------------------------------------------------------------------ next_verbose: the body is a permutation of the map *)
 
-Lemma vm_remove_perm k : forall m,
-  match vm_remove k m with
-  | (Some v, m') => Permutation m ((k, v) :: m')
-  | (None, m') => m' = m
-  end.
+Lemma vm_take_perm k : forall m,
+  Permutation m (map (pair k) (fst (vm_take k m)) ++ snd (vm_take k m)).
 Proof.
-  induction m as [|[k' v'] r IH]; cbn [vm_remove]; [reflexivity|].
-  destruct (beqb k k') eqn:E.
-  - apply beqb_eq in E. subst. apply Permutation_refl.
-  - destruct (vm_remove k r) as [[v|] r'].
-    + eapply perm_trans; [apply perm_skip; exact IH|apply perm_swap].
-    + rewrite IH. reflexivity.
+  induction m as [|[k' v'] r IH]; cbn [vm_take]; [apply Permutation_refl|].
+  destruct (vm_take k r) as [vs r'] eqn:Et. cbn [fst snd] in IH.
+  destruct (beqb k k') eqn:E; cbn [fst snd map app].
+  - apply beqb_eq in E. subst k'. apply perm_skip. exact IH.
+  - eapply perm_trans; [apply perm_skip; exact IH|]. apply Permutation_middle.
 Qed.
 
 Definition vl (cfg : jcfg) (f : field) : bytes := vline cfg (fst f) (snd f).
+
+Lemma vlines_vl cfg k vs : vlines cfg k vs = concat (map (vl cfg) (map (pair k) vs)).
+Proof. unfold vlines. rewrite map_map. reflexivity. Qed.
 
 Lemma take_ordered_perm cfg : forall order m out m',
   take_ordered cfg order m = (out, m') ->
@@ -351,11 +374,11 @@ Lemma take_ordered_perm cfg : forall order m out m',
 Proof.
   induction order as [|k r IH]; intros m out m' H; cbn [take_ordered] in H.
   - injection H as <- <-. exists []. split; [reflexivity|apply Permutation_refl].
-  - pose proof (vm_remove_perm k m) as Hp. destruct (vm_remove k m) as [[v|] m1].
-    + destruct (take_ordered cfg r m1) as [out' m''] eqn:Ht. injection H as <- <-.
-      destruct (IH _ _ _ Ht) as [l [-> Hl]]. exists ((k, v) :: l). split; [reflexivity|].
-      eapply perm_trans; [exact Hp|]. cbn [app]. apply perm_skip. exact Hl.
-    + subst m1. exact (IH _ _ _ H).
+  - pose proof (vm_take_perm k m) as Hp. destruct (vm_take k m) as [vs m1]. cbn [fst snd] in Hp.
+    destruct (take_ordered cfg r m1) as [out' m''] eqn:Ht. injection H as <- <-.
+    destruct (IH _ _ _ Ht) as [l [-> Hl]]. exists (map (pair k) vs ++ l). split.
+    + rewrite map_app, concat_app, vlines_vl. reflexivity.
+    + eapply perm_trans; [exact Hp|]. rewrite <- app_assoc. apply Permutation_app_head. exact Hl.
 Qed.
 
 Lemma insert_sorted_perm f : forall l, Permutation (insert_sorted f l) (f :: l).
@@ -371,26 +394,21 @@ Proof.
   eapply perm_trans; [apply insert_sorted_perm|apply perm_skip; exact IH].
 Qed.
 
-(* every binding of the map is printed exactly once, as FIELD_BEG key "=" value "\n" *)
+(* every binding of the collection is printed exactly once, as FIELD_BEG key "=" value "\n" *)
 Theorem verbose_body_perm_l cfg m :
   exists l, Permutation l m /\ verbose_body cfg m = concat (map (vl cfg) l).
 Proof.
   unfold verbose_body.
-  pose proof (vm_remove_perm (cfg_k_source_rt cfg) m) as Hp.
-  destruct (vm_remove (cfg_k_source_rt cfg) m) as [src m1].
+  pose proof (vm_take_perm (cfg_k_source_rt cfg) m) as Hp.
+  destruct (vm_take (cfg_k_source_rt cfg) m) as [src m1]. cbn [fst snd] in Hp.
   destruct (take_ordered cfg (cfg_order cfg) m1) as [out m2] eqn:Ht.
   destruct (take_ordered_perm cfg _ _ _ _ Ht) as [l1 [-> Hl1]].
-  destruct src as [s|].
-  - exists (l1 ++ sort_fields m2 ++ [(cfg_k_source_rt cfg, s)]). split.
-    + apply Permutation_sym. eapply perm_trans; [exact Hp|].
-      eapply perm_trans; [apply perm_skip; exact Hl1|].
-      eapply perm_trans; [apply Permutation_cons_append|]. rewrite <- app_assoc.
-      apply Permutation_app_head, Permutation_app_tail, Permutation_sym, sort_fields_perm.
-    + rewrite !map_app, !concat_app. cbn [map concat]. rewrite app_nil_r. reflexivity.
-  - subst m1. exists (l1 ++ sort_fields m2). split.
-    + apply Permutation_sym. eapply perm_trans; [exact Hl1|].
-      apply Permutation_app_head, Permutation_sym, sort_fields_perm.
-    + rewrite map_app, concat_app, app_nil_r. reflexivity.
+  exists (l1 ++ sort_fields m2 ++ map (pair (cfg_k_source_rt cfg)) src). split.
+  - apply Permutation_sym. eapply perm_trans; [exact Hp|].
+    eapply perm_trans; [apply Permutation_app_comm|].
+    eapply perm_trans; [apply Permutation_app_tail; exact Hl1|]. rewrite <- app_assoc.
+    apply Permutation_app_head, Permutation_app_tail, Permutation_sym, sort_fields_perm.
+  - rewrite !map_app, !concat_app, vlines_vl. reflexivity.
 Qed.
 
 Corollary verbose_body_line_l cfg m k v : In (k, v) m -> infix (vline cfg k v) (verbose_body cfg m).
